@@ -253,7 +253,7 @@ func c05ConfirmChildMain(t *testing.T) {
 		ob, _ := json.MarshalIndent(out, "", " ")
 		_ = os.WriteFile(os.Getenv("VERIF_C05_CHILD_REPORT"), ob, 0o644)
 	}
-	g := c05NewRig(t, c05RigOpts{Deadline: time.Duration(in.DeadlineMS) * time.Millisecond, TLSName: c05TLSName, StrictSNI: true})
+	g := c05NewRig(t, c05RigOpts{Deadline: time.Duration(in.DeadlineMS) * time.Millisecond, TLSName: c05TLSName, StrictSNI: true, AddrProc: true})
 	g.onFatal = write
 	g.notef("REPLAY on a fresh server: %d operations, then %s", len(in.Ops), in.Op)
 	for _, op := range in.Ops {
@@ -333,7 +333,7 @@ func c05HostileChildMain(t *testing.T) {
 	}
 	// round 6: the server has a TLS server name and checks SNI strictly, so that
 	// the ClientID extraction goes all its ways (pool "clientid")
-	g = c05NewRig(t, c05RigOpts{Deadline: time.Duration(c05DeadlineMS()) * time.Millisecond, TLSName: c05TLSName, StrictSNI: true})
+	g = c05NewRig(t, c05RigOpts{Deadline: time.Duration(c05DeadlineMS()) * time.Millisecond, TLSName: c05TLSName, StrictSNI: true, AddrProc: true})
 	g.onFatal = write
 
 	scenario, scMark := "", 0
